@@ -514,7 +514,18 @@ Definition glom_body (rec : recfn) (sc : scope) (t : val) (s : spec) : M (val * 
               let! v := t_ops_scope rec own sc t r 1 first in ret (v, own)
             else unmodelled "S-op"
         | _ => unmodelled "S-op" end)
-  | ST RA _ => unmodelled "A-general"
+  | ST RA ops =>
+      (* A.v.k with v bound to a Vars object: the target is stored in that object (A.k and A.globals.k are SAssignScope) *)
+      glomit (fun own =>
+        match ops with
+        | [(c1, SStr v); (c2, SStr k)] =>
+            if (String.eqb c1 "." || String.eqb c1 "P") && (String.eqb c2 "." || String.eqb c2 "P") then
+              let! first := s_first own sc v in
+              match vars_ref first with
+              | Some i => let! _ := vars_set i k t in ret (t, own)
+              | None => unmodelled "A-into-value" end
+            else unmodelled "A-general"
+        | _ => unmodelled "A-general" end)
   | SBind bs =>
       glomit (fun own =>
         let! vs := bind_loop rec own sc t bs in
